@@ -350,3 +350,54 @@ def select_arms(match_node, variant):
         if certain:
             break
     return out
+
+
+# ---------------------------------------------------------------- arm delegation (helper extracted from a match arm)
+
+def _rename_paths(n, m):
+    if isinstance(n, list):
+        return [_rename_paths(x, m) for x in n]
+    if not isinstance(n, dict):
+        return n
+    if n.get("e") == "path" and n["p"] in m:
+        return dict(n, p=m[n["p"]], full=m[n["p"]])
+    return {k: (_rename_paths(v, m) if not k.startswith("_") else v) for k, v in n.items()}
+
+
+def delegated_body(tree, body, module_prefix, depth=0):
+    """If `body` is nothing but a call of a local helper (`helper(a, b, ..)?`, `self.helper(a, ..)`, optionally
+    followed by `Ok(..)`/unit), return the helper's body with its parameters renamed to the argument
+    expressions (when those are plain paths), so that rules written for the arm read the moved code.
+    Otherwise return body unchanged."""
+    if depth > 2:
+        return body
+    b = strip(body)
+    stmts = b["stmts"] if b.get("e") == "block" else [{"s": "expr", "x": b, "semi": False}]
+    core = [st for st in stmts if not (st.get("s") == "expr" and show(strip(st["x"])).replace(" ", "") in ("Ok(())", "()", "None"))]
+    if len(core) != 1 or core[0].get("s") != "expr":
+        return body
+    x = strip(core[0]["x"])
+    while isinstance(x, dict) and x.get("e") == "try":
+        x = strip(x["x"])
+    name, args = None, None
+    if x.get("e") == "call" and x["f"].get("e") == "path":
+        name, args = x["f"]["p"].rsplit("::", 1)[-1], x["args"]
+    elif x.get("e") == "mcall" and strip(x["recv"]).get("e") == "path" and strip(x["recv"])["p"] in ("self", "Self"):
+        name, args = x["m"], x["args"]
+    if name is None:
+        return body
+    cands = [f for f in tree.fn_list if f["sig"]["name"] == name and f["path"].startswith(module_prefix) and f.get("body")]
+    if len(cands) != 1:
+        return body
+    f = cands[0]
+    params = [p.get("pat", {}).get("n") for p in f["sig"]["params"] if p.get("pat", {}).get("n") != "self"]
+    if len(params) != len(args):
+        return body
+    m = {}
+    for pn, a in zip(params, args):
+        a = strip(a)
+        while isinstance(a, dict) and a.get("e") == "mcall" and a["m"] in ("clone", "as_ref", "as_deref") and not a["args"]:
+            a = strip(a["recv"])
+        if pn and isinstance(a, dict) and a.get("e") == "path":
+            m[pn] = a["p"]
+    return delegated_body(tree, _rename_paths(f["body"], m), module_prefix, depth + 1)
